@@ -3,7 +3,9 @@
 worktree) and then evaluates it against ./check Cxx.  Results: /verif/seeded/results.jsonl
 (one line per seed, appended; seeds already present are skipped).  usage: seedpipe.py [workers] [props...]"""
 import json, os, subprocess, sys, glob, concurrent.futures, re
-R = '/verif/seeded/results.jsonl'
+import os as _os
+OUT = _os.environ.get('SEED_OUT', 'out')
+R = '/verif/seeded/results.jsonl' if OUT == 'out' else '/verif/seeded/results2.jsonl'
 done = set()
 if os.path.exists(R):
     for l in open(R):
@@ -11,20 +13,20 @@ if os.path.exists(R):
             d = json.loads(l); done.add((d['prop'], d['n']))
         except Exception: pass
 workers = int(sys.argv[1]) if len(sys.argv) > 1 else 2
-props = sys.argv[2:] or sorted({p.split('-')[1].split('/')[0] for p in glob.glob('/tmp/seed-C*/out/*/patch.diff')})
+props = sys.argv[2:] or sorted({p.split('-')[1].split('/')[0] for p in glob.glob(f'/tmp/seed-C*/{OUT}/*/patch.diff')})
 jobs = []
 for p in props:
-    for d in sorted(glob.glob(f'/tmp/seed-{p}/out/*/patch.diff')):
+    for d in sorted(glob.glob(f'/tmp/seed-{p}/{OUT}/*/patch.diff')):
         n = d.split('/')[-2]
         if (p, n) not in done:
             jobs.append((p, n))
 def run(job):
     p, n = job
-    v = subprocess.run(['tools/seedverify.sh', p, n], cwd='/verif', capture_output=True, text=True, timeout=3600)
+    v = subprocess.run(['tools/seedverify.sh', p, n, OUT], cwd='/verif', capture_output=True, text=True, timeout=3600)
     m = re.search(r'RESULT \S+ \S+ (.*)', v.stdout)
     verify = m.group(1) if m else 'verify-failed: ' + (v.stdout + v.stderr)[-300:]
     kept = 'KEPT' in v.stdout
-    e = subprocess.run(['tools/seedeval.sh', f'/tmp/seed-{p}/out/{n}/patch.diff', p], cwd='/verif', capture_output=True, text=True, timeout=3600)
+    e = subprocess.run(['tools/seedeval.sh', f'/tmp/seed-{p}/{OUT}/{n}/patch.diff', p], cwd='/verif', capture_output=True, text=True, timeout=3600)
     out = e.stdout
     if 'PATCH-DOES-NOT-APPLY' in out: verdict = 'patch-does-not-apply'
     elif re.search(r'^VIOLATION .*no-failing-input-found', out, re.M) and not re.search(r'^VIOLATION property=\S+ replay=\S+$', out, re.M): verdict = 'mismatch-only'
